@@ -22,7 +22,9 @@ ASSUMPTIONS = ["each content change also changes mtime (>= 10 ms apart) or lengt
                "every history is replayed from scratch on real files (inode identity matters, states are not copied)"]
 
 L = 131073
-VARIANTS = {"V0": ["base", L, 1], "V1": ["flip", L, 1, 60000], "V2": ["flip", L, 1, 70000]}
+# (VP differs from every other variant in its FIRST byte: a file set to VP is alone after the prefix stage, the later
+# stages never read it - whatever the cache holds for those stages is left as it is)
+VARIANTS = {"V0": ["base", L, 1], "V1": ["flip", L, 1, 60000], "V2": ["flip", L, 1, 70000], "VP": ["flip", L, 1, 0]}
 INITIAL = [("F1", "V0"), ("F2", "V0"), ("F3", "V1"), ("F4", "V2")]
 EDITS_FULL = [
     ("set", "F2", "V1"), ("set", "F3", "V0"), ("set", "F4", "V1"), ("append", "F2"), ("truncate", "F2"),
@@ -39,7 +41,10 @@ PRE1970 = [("set_pre1970", "F2", "V1"), ("set_pre1970", "F2", "V0")]
 # restored with its old time after something else had been there)
 # (only valid AFTER another edit of the same file: otherwise the content would change under an unchanged mtime)
 RESTORE_PAIRS = [(("set_older", "F2", "V1"), ("set_restore", "F2", "V2")), (("set", "F2", "V1"), ("set_restore", "F2", "V2")),
-                 (("set_older", "F3", "V0"), ("set_restore", "F3", "V2")), (("append", "F2"), ("set_restore", "F2", "V2"))]
+                 (("set_older", "F3", "V0"), ("set_restore", "F3", "V2")), (("append", "F2"), ("set_restore", "F2", "V2")),
+                 # in between the file was unique after the prefix stage: its later chunks were not read in that run
+                 (("set", "F2", "VP"), ("set_restore", "F2", "V2")), (("set", "F2", "VP"), ("set_restore", "F2", "V1")),
+                 (("set_older", "F3", "VP"), ("set_restore", "F3", "V0"))]
 EDITS_QUICK = [e for e in EDITS_FULL if e not in (("set", "F4", "V1"), ("set_older", "F3", "V0"), ("truncate", "F2")) and e not in PRE1970]
 EDITS_D3 = [("set", "F2", "V1"), ("set", "F3", "V0"), ("rename", "F1", "F1r"), ("recreate", "F2", "V1"),
             ("recreate", "F3", "V0"), ("append", "F2"), ("set_older", "F2", "V1")]
@@ -106,6 +111,12 @@ def cases(tier, seed):
             for e1 in EDITS_QUICK[:2]:
                 for e2 in EDITS_QUICK[:2] + EDITS_QUICK[5:6]:
                     out.append({"history": [[list(e1), c1], [list(e2), c2]], "kills": False})
+        # the cache was filled under ANOTHER configuration only (other prefix size: other chunks of the same files); the
+        # first run of a configuration comes after the edit
+        for wcfg, c in (("metro", "metro_p8k"), ("metro_p8k", "metro")):
+            for e1 in (("set", "F2", "V1"), ("set", "F3", "V0"), ("append", "F2"), ("recreate", "F2", "V1")):
+                for e2 in (("small", "s2"), ("set", "F2", "V2")):
+                    out.append({"history": [[list(e1), c], [list(e2), wcfg]], "kills": False, "warm": [wcfg]})
         # the same transform under another hash function (a new replica of cached content must still be matched)
         for c1, c2 in (("metro_tr", "blake3_tr"), ("blake3_tr", "metro_tr")):
             for e1 in (("create", "F5", "V0"), ("set", "F3", "V0")):
@@ -144,6 +155,13 @@ def cases(tier, seed):
         for e1, e2 in RESTORE_PAIRS:
             for cfg in CONFIGS:
                 out.append({"history": [[list(e1), cfg], [list(e2), cfg]], "kills": False})
+        for wcfg in ("metro", "metro_p8k", "blake3_tr", "blake3_tr_p8k", "metro_head"):
+            for c in ("metro", "metro_p8k", "blake3_tr", "blake3_tr_p8k", "metro_head2", "blake3"):
+                if c == wcfg:
+                    continue
+                for e1 in EDITS_FULL[:11]:
+                    for e2 in (("small", "s2"), ("set", "F2", "V2"), ("set", "F3", "V0")):
+                        out.append({"history": [[list(e1), c], [list(e2), wcfg]], "kills": False, "warm": [wcfg]})
         steps3 = [(e, c) for e in EDITS_D3 for c in ("metro", "blake3_tr")]
         for h in itertools.product(steps3, repeat=3):
             out.append({"history": [list(x) for x in h], "kills": False})
@@ -442,7 +460,8 @@ def evaluate(case):
         for name, _ in INITIAL:
             w.first_mtime[name] = os.stat(w.p(name)).st_mtime_ns
         # the cache is warm for every configuration the history uses (+ metro, so that a foreign table is always there)
-        for cfg in sorted(set(["metro"] + [c for _, c in case["history"]])):
+        # (cases with "warm": the cache is filled under the listed configurations only)
+        for cfg in (case["warm"] if case.get("warm") else sorted(set(["metro"] + [c for _, c in case["history"]]))):
             b1, e1 = run(cfg, True)
             if b1 is None:
                 raise C.MachineryError("initial cached run failed: %s" % e1[-300:])
@@ -464,7 +483,12 @@ def evaluate(case):
             states += 1
             feat = {"kind": "cached_result_differs", "last_edit": edit[0], "config": cfg,
                     "previous_edit": case["history"][step_i - 1][0][0] if step_i else "none",
-                    "after_killed_run": bool(case["kills"])}
+                    "after_killed_run": bool(case["kills"]),
+                    # (from the scenario) the time of the first cached state is back, and the run in between stopped
+                    # reading the file after the prefix stage
+                    "time_restored_after_run_that_read_prefix_only": bool(
+                        step_i and edit[0] == "set_restore" and case["history"][step_i - 1][0][0] in ("set", "set_older")
+                        and case["history"][step_i - 1][0][2] == "VP" and case["history"][step_i - 1][0][1] == edit[1])}
             if plain is None:
                 raise C.MachineryError("uncached run failed: %s" % err_p[-300:])
             if cached is None:
@@ -496,4 +520,6 @@ def finish(stats, tier):
     return []
 
 
+RULE += (" Since round 12 also: a rewrite that restores the first cached time after a run in which the file dropped out at the prefix stage (known finding), "
+         "and histories whose cache was filled under another prefix size / hash function / transform only, so that a configuration's first run comes after the edit.")
 RULE += " Since round 11 also: initial modification times on a 1 s / 2 s grid with edits 1 ... 2000 ms after the file's own time."
